@@ -112,6 +112,9 @@ func (db *DB) Merge() error {
 			if pos != nil && pos.Fid == dataFile.ID &&
 				pos.Offset == logRecordPos.Offset && pos.BlockID == logRecordPos.BlockID {
 				// 将数据重写到 merge 临时目录中
+				// 重写后的记录不再属于任何批次: 其批处理完成标识记录不会被重写,
+				// 保留批次 id 会导致重启扫描时该记录被丢弃
+				logRecord.BatchID = 0
 				pos, err := mergeDB.appendLogRecord(logRecord)
 				if err != nil {
 					return err
